@@ -74,7 +74,7 @@ func (x *Exec) bytesToStr(s *State, v Value) *StrVal {
 
 // isLenOnlySlice: the slice was created by zzvrf.LenOnly (empty backing array, symbolic length).
 func (x *Exec) isLenOnlySlice(s *State, c *SliceVal) bool {
-	if c.Len.IsConst() {
+	if c.Len.IsConst() && c.Len.K == 0 {
 		return false
 	}
 	seen := false
